@@ -575,8 +575,15 @@ def view_problem(ctx, view, expected, full):
     return None
 
 
-def apply_ops(table, ops):
-    for axis, indices in ops:
+def apply_ops(table, ops, forms=None):
+    """``forms``: per operation None (a list), 'tuple' or a (start, stop, step) triple - the same positions handed over as
+    another kind of sequence (the Slicer passes ranges, the reader a tuple)."""
+    for slot, (axis, indices) in enumerate(ops):
+        form = forms[slot] if forms and slot < len(forms) else None
+        if form == 'tuple':
+            indices = tuple(indices)
+        elif form is not None:
+            indices = range(*form)
         table = table.take_rows(indices) if axis == 'rows' else table.take_columns(indices)
     return table
 
@@ -591,11 +598,11 @@ def expect_ops(rows, width, ops):
     return rows, width
 
 
-def probe_tabular(ctx, lib, impl, rows, names, ops, full):
+def probe_tabular(ctx, lib, impl, rows, names, ops, full, forms=None):
     """None if the table after ``ops`` agrees with the list semantics, else (problem, description)."""
     want_rows, width = expect_ops(rows, len(rows[0]), ops)
     try:
-        table = apply_ops(lib.tabular(impl, rows, names), ops)
+        table = apply_ops(lib.tabular(impl, rows, names), ops, forms)
         for where, view, want in (('to_rows', table.to_rows, want_rows),
                                   ('to_columns', table.to_columns, transpose(want_rows, width))):
             problem = view_problem(ctx, view(), want, full)
@@ -638,15 +645,20 @@ def check_tabular(ctx, lib, case):
     # integer column labels that disagree with the positions for the shuffled frame
     names = [f'c{i}' for i in range(ncols)] if case['impl'] != 'frame-idx' else [(i + 1) % ncols for i in range(ncols)]
     ops = [(axis, list(indices)) for axis, indices in case['ops']]
+    forms = [tuple(f) if isinstance(f, list) else f for f in case.get('forms') or []]
+    for (axis, indices), form in zip(ops, forms):
+        assert form in (None, 'tuple') or list(range(*form)) == indices, (form, indices)
+    if any(f is not None for f in forms):
+        ctx.count('non_list_selectors')
     trivial = all(indices == list(range(nrows if axis == 'rows' else ncols)) for axis, indices in ops)
     if not trivial:
-        ctx.shape(('tabular', nrows, ncols, case['impl'], ops))
+        ctx.shape(('tabular', nrows, ncols, case['impl'], ops, tuple(forms)))
     full = sum(len(i) for _, i in ops) <= 2 or case.get('full', False)
-    if probe_tabular(ctx, lib, case['impl'], rows, names, ops, full) is None:
+    if probe_tabular(ctx, lib, case['impl'], rows, names, ops, full, forms) is None:
         return
     # mechanism = the first operation of the chain after which the table disagrees (structural, not the whole chain)
     for size in range(len(ops) + 1):
-        found = probe_tabular(ctx, lib, case['impl'], rows, names, ops[:size], True)
+        found = probe_tabular(ctx, lib, case['impl'], rows, names, ops[:size], True, forms)
         if found is not None:
             break
     if case['impl'].startswith('frame') and found[0].startswith('to_rows') and widened_only(lib, case, rows, names, ops[:size]):
@@ -660,6 +672,8 @@ def check_tabular(ctx, lib, case):
         before_rows, before_width = expect_ops(rows, ncols, ops[:size - 1])
         flavour = ('-empty-selection' if not indices else '-of-emptied-table' if not before_rows or not before_width
                    else '')
+        if size <= len(forms) and forms[size - 1] is not None:
+            flavour += '-by-tuple' if forms[size - 1] == 'tuple' else '-by-range'
     ctx.violation(f'tabular-{case["impl"].split("-")[0]}-{operation}{flavour}-{found[0]}',
                   f'{case["impl"]} of {rows} after {ops[:size]}: {found[1]}', case)
 
@@ -685,13 +699,14 @@ def check_out_of_range(ctx, lib, case):
     ncols = len(rows[0])
     names = [f'c{i}' for i in range(ncols)] if case['impl'] != 'frame-idx' else [(i + 1) % ncols for i in range(ncols)]
     axis, indices = case['ops'][0]
-    ctx.shape(('out-of-range', len(rows), ncols, case['impl'], axis, tuple(indices)))
+    forms = [tuple(f) if isinstance(f, list) else f for f in case.get('forms') or []]
+    ctx.shape(('out-of-range', len(rows), ncols, case['impl'], axis, tuple(indices), tuple(forms)))
     try:
-        table = apply_ops(lib.tabular(case['impl'], rows, names), [(axis, list(indices))])
+        table = apply_ops(lib.tabular(case['impl'], rows, names), [(axis, list(indices))], forms)
         seen = lists(table.to_rows())
     except Exception:  # pylint: disable=broad-except
         return
-    ctx.violation(f'tabular-{case["impl"].split("-")[0]}-take_{axis}-out-of-range-accepted',
+    ctx.violation(f'tabular-{case["impl"].split("-")[0]}-take_{axis}-out-of-range-accepted' + ('-by-range' if forms and forms[0] not in (None, 'tuple') else ''),
                   f'{case["impl"]} of {rows}: take_{axis}({indices}) with a position outside the axis returned {seen}', case)
 
 
@@ -760,6 +775,24 @@ def run(ctx):
                 if ctx.mine(index):
                     ctx.count('negative_index_lists')
                     check_tabular(ctx, lib, {'kind': 'tabular', 'rows': rows, 'impl': impl, 'ops': [[axis, indices]]})
+            # the same positions handed over as a range (forward, backward, strided, counted from the end) or a tuple
+            for start, stop, step in itertools.product(range(-extent, extent), range(-extent - 1, extent + 1), (1, -1, 2, -2)):
+                triple = (start, stop, step)
+                inside = list(range(*triple))
+                if not all(-extent <= i < extent for i in inside):
+                    continue
+                index += 1
+                if ctx.mine(index):
+                    check_tabular(ctx, lib, {'kind': 'tabular', 'rows': rows, 'impl': impl, 'ops': [[axis, inside]], 'forms': [list(triple)]})
+            for indices in index_lists(extent, 2):
+                index += 1
+                if ctx.mine(index):
+                    check_tabular(ctx, lib, {'kind': 'tabular', 'rows': rows, 'impl': impl, 'ops': [[axis, indices]], 'forms': ['tuple']})
+            for triple in ((0, extent + 1, 1), (extent, extent + 1, 1), (extent - 1, -extent - 2, -1), (-extent - 1, 0, 1)):
+                index += 1
+                if ctx.mine(index):
+                    check_out_of_range(ctx, lib, {'kind': 'out-of-range', 'rows': rows, 'impl': impl,
+                                                  'ops': [[axis, list(range(*triple))]], 'forms': [list(triple)]})
             for outside in (extent, extent + 3, -extent - 1, -extent - 4):
                 for position in range(3):
                     index += 1
